@@ -239,6 +239,9 @@ class State:
         t, truth = n
         if t in self.truth:
             return self.truth[t] == truth
+        if t[0] == "icmp" and t[1] == "eq" and truth and t[3] == ZERO and isinstance(t[2], tuple) and t[2][0] == "op" and t[2][1] == "mul" and \
+                self._guarded_product_positive(t[2]):
+            return False        # c * x == 0 where the multiplication guard said c * x does not wrap and neither factor is 0
         if t[0] == "icmp":
             pred, a, b = t[1], t[2], t[3]
             if is_const(a) and not is_const(b):
@@ -274,6 +277,15 @@ class State:
         self.truth[t] = truth
         self.facts.append((t, truth, ins))
         return True
+
+    def _guarded_product_positive(self, prod):
+        a, b = prod[3], prod[4]
+        if not (self.known_positive(a) and self.known_positive(b)):
+            return False
+        for e in self.events:
+            if e.kind == "call" and e.callee == "_cbor_safe_to_multiply" and {e.args[0], e.args[1]} == {a, b} and self.truth.get(e.res) is True:
+                return True
+        return False
 
     def _nonneg(self, a):
         """term is a zero-extended (hence non-negative as signed) value"""
@@ -610,6 +622,18 @@ def _is_loader(g):
     return os.path.basename(g.file or "").split(".")[0] == "loaders" and g.name.startswith("_cbor_load_")
 
 
+def is_helper(prog, g):
+    """a function that is an implementation detail of its callers: unit-internal (static), or a routine of the allocation-helper
+    module that only composes that module's primitives (see static_callees)"""
+    if g is None or g.name in OPAQUE or _is_loader(g):
+        return False
+    if g.internal:
+        return True
+    anchor = prog.funcs.get("_cbor_realloc_multiple")
+    return anchor is not None and g.unit == anchor.unit and not any(getattr(i_, "callee", None) is None for i_ in g.calls()) and \
+        any(cc.callee in ("_cbor_realloc_multiple", "_cbor_alloc_multiple") for cc in g.calls())
+
+
 def static_callees(prog, eff, fname):
     """internal (static) functions reachable from fname through direct calls, excluding those on a cycle made of
     internal functions only: implementation details that may be inlined so that extract-/inline-helper refactorings
@@ -620,7 +644,15 @@ def static_callees(prog, eff, fname):
         # the byte loaders are the decoder's named primitives (their byte maps are judged on their own: C10.loader); the rules
         # about what the decoder hands to its callbacks speak of "the result of the loader of width w", so a loader stays a
         # call wherever it is defined (its unit, or `static inline` in the loaders header)
-        return g is not None and g.internal and c != fname and c not in OPAQUE and not _is_loader(g)
+        if g is None or c == fname or c in OPAQUE or _is_loader(g):
+            return False
+        if g.internal:
+            return True
+        # a routine of the allocation-helper module that is a composition of its primitives (it calls them, never the allocator
+        # hooks themselves): the growth step of two containers kept in one place is still part of each container's insert routine
+        anchor = prog.funcs.get("_cbor_realloc_multiple")
+        return anchor is not None and g.unit == anchor.unit and not any(getattr(i_, "callee", None) is None for i_ in g.calls()) and \
+            any(cc.callee in ("_cbor_realloc_multiple", "_cbor_alloc_multiple") for cc in g.calls())
 
     def on_internal_cycle(c):
         seen = set()
@@ -959,6 +991,22 @@ class Executor:
                 iv = g.get("init_val") if g and g.get("constant") else None
                 if isinstance(iv, Const):
                     return ("c", iv.v)
+            # a field of a constant aggregate (a `static const` table of function pointers or numbers, possibly handed to a helper
+            # by address): the value is its initialiser, whoever reads it
+            gb, go = ptr_key(p) if isinstance(p, tuple) else (None, 0)
+            if isinstance(gb, tuple) and gb[0] == "g":
+                g = self.prog.global_for(f, gb[1]) or self.prog.globals.get(gb[1])
+                iv = g.get("init_val") if g and g.get("constant") else None
+                sname = (g.get("type") or "").lstrip("%") if g else ""
+                lay = self.prog.structs.get(sname)
+                if isinstance(iv, Agg) and lay and not iv.zero and go in lay.get("offsets", []) and len(iv.elems) == len(lay["offsets"]):
+                    el = iv.elems[lay["offsets"].index(go)]
+                    while isinstance(el, CExpr) and el.op == "bitcast":
+                        el = el.operands[0]
+                    if isinstance(el, FuncRef):
+                        return ("fn", el.name)
+                    if isinstance(el, Const):
+                        return ("c", el.v)
             v = st.load(p, ins.type, ins)
             st.events.append(Event("load", ins, f, (p,), v, len(st.facts), None, None, None, depth))
             self.note_deref(st, p)
